@@ -17,10 +17,10 @@ MANIFEST = dict(
          "against the reference semantics only. SQLite 3.40 value semantics trusted. Floats, dates, loop, s-strings outside the core.",
     technique="Lean 4 proofs over regenerated split table + block normal form; reference-semantics differential run on SQLite", ref="4/C01")
 
-SAFE = dict(declared=True, shared_k=False, append_inline=True, open_take=False, dup_names=False)
-FULL = dict(declared=True, shared_k=True, append_inline=False, open_take=True, dup_names=True)
-RICH = dict(declared=False, shared_k=False, append_inline=True, open_take=False, dup_names=False, literal=True, functions=True)
-UNDECL = dict(declared=False, shared_k=False, append_inline=True, open_take=False, dup_names=False)
+SAFE = dict(declared=True, shared_k=False, append_inline=True, open_take=False, dup_names=False, shapes=True)
+FULL = dict(declared=True, shared_k=True, append_inline=False, open_take=True, dup_names=True, shapes=True)
+RICH = dict(declared=False, shared_k=False, append_inline=True, open_take=False, dup_names=False, literal=True, functions=True, shapes=True)
+UNDECL = dict(declared=False, shared_k=False, append_inline=True, open_take=False, dup_names=False, shapes=True)
 
 
 def explore(ctx, label, rng, n, profile, target, no_append=False, cases=None):
@@ -88,6 +88,24 @@ def run(ctx):
     syscases = relgen.systematic_cases(3 if quick else 4, SAFE, sample=(sysrng, 1400 if quick else 3000))   # quick: every sequence up to length 3
     ctx.coverage_extra["systematic_sequences"] = len(syscases)
     nbad += explore(ctx, "systematic", None, 0, SAFE, "sql.sqlite", cases=syscases)
+    # one relation read several times (diamonds of let-tables, append-first), and every kind sequence up to length 2 with the optional
+    # shapes forced (inline join sides, joins equating every column, group pipelines ending in select/derive, `append <let>`)
+    dia = relgen.diamond_cases(SAFE)
+    if quick:
+        dia = random.Random(12).sample(dia, 400)
+    shaped = relgen.systematic_cases(2 if quick else 3, dict(SAFE, force_shape=["join_inline", "group_inner", "append_let"]), seed=17,
+                                     sample=(random.Random(17), 1400), kinds=["select", "derive", "filter", "sort", "take", "aggregate", "group_take", "join", "append"])
+    shaped += relgen.systematic_cases(2 if quick else 3, dict(SAFE, force_shape=["join_all"]), seed=18, sample=(random.Random(18), 400),
+                                      kinds=["select", "filter", "take", "join", "aggregate", "sort"])
+    ctx.coverage_extra["diamond_cases"] = len(dia)
+    ctx.coverage_extra["forced_shape_cases"] = len(shaped)
+    nbad += explore(ctx, "diamond", None, 0, SAFE, "sql.sqlite", cases=dia)
+    # the shapes the back end rewrites to INTERSECT / EXCEPT / DISTINCT (joins equating every column), on both executable targets
+    setop = relgen.setop_cases(SAFE)
+    ctx.coverage_extra["setop_cases"] = len(setop)
+    nbad += explore(ctx, "setop", None, 0, SAFE, "sql.sqlite", cases=setop)
+    nbad += explore(ctx, "setop-generic", None, 0, SAFE, "sql.generic", cases=setop)
+    nbad += explore(ctx, "forced-shapes", None, 0, SAFE, "sql.sqlite", cases=shaped)
     nbad += explore(ctx, "safe", random.Random(20240924), 500 if quick else 3000, SAFE, "sql.sqlite")
     nbad += explore(ctx, "safe-generic", random.Random(20240925), 200 if quick else 1500, SAFE, "sql.generic")
     nbad += explore(ctx, "literals+functions", random.Random(20240926), 250 if quick else 2000, RICH, "sql.sqlite")
